@@ -10,7 +10,7 @@
    a killed process never runs it.  The property as a whole stays partial (manifest): the
    events are what reqwest/hyper/tokio deliver, persist is one step by the kernel's rename
    atomicity, a concurrently writing second process is outside the model. *)
-From RM Require Import C09.Grammar C10.Model C16.Model C16.Proofs C16.Rehit C16.Driver C16.Shared C16.SharedProofs Gen.C16Ops.
+From RM Require Import C09.Grammar C10.Model C16.Model C16.Proofs C16.Rehit C16.Driver C16.Shared C16.SharedProofs C16.Refine Gen.C16Ops.
 Open Scope Z_scope.
 
 Section Statements.
@@ -330,3 +330,48 @@ Example c16_fetch_steps_as_modelled :
   create_ops = [OMkdirAll; ONewTemp] /\ commit_ops = std_commit.
 Proof. repeat split; reflexivity. Qed.
 Print Assumptions c16_fetch_steps_as_modelled.
+
+(* ------------------------------------------------------------------------------------------------
+   The operation programs against the one-step functions of C16/Model.v (the model of the theorems
+   above, compared with the real code on every single-client case): run to its end without
+   interleaving, the translated program of commit_cache_file has exactly the effect of
+   Model.commit_cache_file on the cache path — on every error branch (write of the separator or of
+   the note fails, remove_file fails or hits a directory, persist fails) and on success — other
+   paths are untouched, the temp file is gone from tmp in every branch, and when every operation
+   succeeded the entry is cached_form body u.  Likewise create_cache_file. *)
+Theorem c16_commit_program_refines : forall p e f n body u g i,
+  m_cache g = cache f p -> m_tmp g i = Some body ->
+  let f' := Model.commit_cache_file p e f n body u in
+  let r := run_ops e i body u g commit_ops in
+  m_cache (set_mtmp (fst r) i None) = cache f' p /\
+  (forall q, q <> p -> cache f' q = cache f q) /\
+  tmp f' = tmp (rm_tmp f n) /\
+  (snd r = true -> m_tmp (fst r) i = None /\ m_cache (fst r) = Some (File (cached_form body u))).
+Proof. exact commit_refines. Qed.
+Print Assumptions c16_commit_program_refines.
+
+Theorem c16_create_program_refines : forall p e f g i u,
+  m_cdir g = cdir f p -> m_tmp g i = None ->
+  let r := run_ops e i [] u g create_ops in
+  let fr := Model.create_cache_file p e f in
+  m_cache (fst r) = m_cache g /\
+  m_cdir (fst r) = cdir (fst fr) p /\
+  (forall q, cache (fst fr) q = cache f q) /\
+  (snd r = true -> snd fr <> None /\ m_tmp (fst r) i = Some []) /\
+  (snd r = false -> snd fr = None /\ m_tmp (fst r) i = None /\ tmp (fst fr) = tmp f).
+Proof. exact create_refines. Qed.
+Print Assumptions c16_create_program_refines.
+
+(* the machine's commit phase IS that program: |ops|+1 scheduler steps of one client, uninterrupted *)
+Theorem c16_machine_commit_is_program : forall (T : Type) (parse : bytes -> option (T * option bytes)) ops i f srv body t,
+  ticks T parse create_ops commit_ops (S (length ops)) i f (mkclient T srv (CCommit ops body t)) =
+  (set_mtmp (fst (run_ops (env_of T (mkclient T srv CIdle)) i body (url_of T (mkclient T srv CIdle)) f ops)) i None,
+   mkclient T srv (CDone (ROk t (Some (url_of T (mkclient T srv CIdle)))))).
+Proof. exact (fun T parse => ticks_commit T parse create_ops commit_ops). Qed.
+Print Assumptions c16_machine_commit_is_program.
+
+Example c16_nonvacuous_commit_program :
+  let g := mkmfs (Some (File [1])) true (fun j => if j =? 3 then Some [65] else None) in
+  let r := run_ops env_ok 3 [65] [104] g commit_ops in
+  snd r = true /\ m_cache (fst r) = Some (File (cached_form [65] [104])) /\ m_tmp (fst r) 3 = None.
+Proof. vm_compute. repeat split; reflexivity. Qed.
